@@ -7,7 +7,8 @@ import json, os, re, subprocess, sys
 VERIF = os.path.dirname(os.path.dirname(os.path.abspath(__file__)))
 WT = '/tmp/wt-revert'
 # earlier fix -> later fix touching the same lines
-STACKED = {'919fe8e': '2bfd7f7', 'e014a8e': '975810f', 'fc3c546': '00844b8'}
+# (value: the later fixes to revert first, latest first)
+STACKED = {'919fe8e': ['2bfd7f7'], 'e014a8e': ['975810f'], 'fc3c546': ['b32f988', '00844b8'], '00844b8': ['b32f988']}
 
 
 def sh(cmd, cwd=None):
@@ -32,8 +33,8 @@ def main():
             if rc != 0 and sha in STACKED:
                 # a later fix sits on top of this one in the same lines: revert both, later one first
                 sh('git reset -q --hard HEAD; git clean -fdq', cwd=WT)
-                rc, out = sh('git show %s -- desper | git apply -R && git show %s -- desper | git apply -R' % (STACKED[sha], sha), cwd=WT)
-                what = what + ' (reverted together with the later fix %s stacked on it)' % STACKED[sha]
+                rc, out = sh(' && '.join('git show %s -- desper | git apply -R' % c for c in STACKED[sha] + [sha]), cwd=WT)
+                what = what + ' (reverted together with the later fix(es) %s stacked on it)' % ', '.join(STACKED[sha])
             if rc != 0:
                 sh('git reset -q --hard HEAD; git clean -fdq', cwd=WT)
                 results.append(dict(property=pid, commit=sha, outcome='revert does not apply on HEAD (later commits touched the same lines)'))
